@@ -202,7 +202,21 @@ type bceSite struct {
 
 var bceRe = regexp.MustCompile(`^(.*\.go):(\d+):(\d+): Found (IsInBounds|IsSliceInBounds)`)
 
+var bceCache = map[string][]bceSite{}
+
 func runBCE(repo string, rels []string) ([]bceSite, error) {
+	ck := repo + "|" + strings.Join(rels, ",")
+	if s, ok := bceCache[ck]; ok {
+		return s, nil
+	}
+	s, err := runBCE1(repo, rels)
+	if err == nil {
+		bceCache[ck] = s
+	}
+	return s, err
+}
+
+func runBCE1(repo string, rels []string) ([]bceSite, error) {
 	args := []string{"build", "-gcflags=-l -d=ssa/check_bce/debug=1"}
 	for _, r := range rels {
 		args = append(args, "./"+r)
@@ -903,7 +917,7 @@ func checkC10(c *Ctx) {
 		"(C10.nilret) no function returning (runtime.Element, error) - built-ins, library functions, GetProperty/ExecMethod/Construct, evaluator functions - returns (nil, nil); " +
 		"(C10.nilrecv) results of VM.getCurrentScope()/getCurrentCallFrame() are used only under a nil test and getCurrentCallFrame guards the empty stack; " +
 		"(C10.exit) no os.Exit / log.Fatal / panic is reachable from Interpreter.Execute or ExecVarInputText except the parser's error-typed panics recovered by Parser.Parse (VTA call graph). " +
-		"NOT decided: stack exhaustion by deep recursion, memory exhaustion, results of float->int conversions, stdlib/http (does not compile at the pinned commit)."
+		"C10.index sites are first tried with the own symbolic bounds prover (bounds.go: dominating comparisons, monotone loop phis, len equalities, helper summaries) and only then looked up in the reviewed table (keys name the function and the expression with locals replaced by their types; a moved expression may claim a stale entry once). C10.exit accepts panics only below a function that defers a recover handler storing the recovered error (must-pass-through on the call graph). (C10.dictsync = C12.sync, C10.tmpl = C14.tmpl) invariants the reviewed index sites rest on. NOT decided: stack exhaustion by deep recursion, memory exhaustion, results of float->int conversions, stdlib/http (does not compile at the pinned commit)."
 	R.Assumptions = []string{"the compiler's prove pass is sound (a bounds check it removes cannot fail)", "tables/bce.json and tables/assert_allow.json were reviewed entry by entry (one reason each)", "VTA call graph over-approximates dynamic calls through FuncExecutor values"}
 	u := c.Core()
 	u.buildSSA()
@@ -918,6 +932,12 @@ func checkC10(c *Ctx) {
 	ruleNilNil(c, u, "C10.nilret", []string{"pkg/common", "pkg/exec", "pkg/runtime", "pkg/value", "stdlib/file", "stdlib/json"})
 	R.min("C10.nilret", 60)
 	_ = scope
+
+	// structural invariants other rules' index arguments rest on: keyOrder lists exactly the keys of the map (a
+	// key listed without a value is a nil Element: nil dereference while displaying), and the template scanner
+	// leaves complete [kind,start,end) triples (the fill loop indexes fmtStack[i+1], [i+2] and the argument list)
+	borrowRule(c, "C12", "C12.sync", "C10.dictsync")
+	borrowRule(c, "C14", "C14.tmpl", "C10.tmpl")
 
 	// ---- C10.nilrecv
 	for _, getter := range []string{"pkg/runtime.VM.getCurrentScope", "pkg/runtime.VM.getCurrentCallFrame"} {
